@@ -969,7 +969,9 @@ impl Compactor {
 
     /// Enforce data retention policy
     async fn enforce_retention(&self) -> Result<()> {
-        let retention_nanos = self.config.retention_days as i64 * 24 * 3600 * 1_000_000_000;
+        // saturating: a "keep for ever" setting above ~292 years does not fit an i64 of nanoseconds
+        let retention_nanos =
+            (self.config.retention_days as i64).saturating_mul(24 * 3600 * 1_000_000_000);
         let cutoff = self.clock.retention_cutoff_nanos(retention_nanos);
 
         // Find chunks older than retention period. The range lookup returns every chunk that
